@@ -692,6 +692,7 @@ def dstepCore (st : DState) (line : String) : DState × Option String :=
   | ["lockwarm", _] => (st, none)
   | ["pruning"] => (st, none)
   | ["store2", _] => (st, none)
+  | ["stalelock", _] => (st, none)
   | ["pause", _] => (st, some "ok")
   -- a rules-level batch over synthetic keys (judged by the harness-side expectation, not by this model: "-")
   | ["rbatch", _, _, _, _, _] => (st, some "-")
